@@ -1,7 +1,9 @@
 """C11 — evolution strategies: theorems (Props/C11.lean) about strategy-parameter formulas regenerated from the C++
 (translate/cma_params.py -> Gen/CMAParams.lean) and about the models Model/CMA.lean, Model/ES.lean; correspondence K-C11 between
 the models (driver drv_c11) and the real CMA, ElitistCMA, CMSA, CrossEntropyMethod, SimplexDownhill; independent per-step oracle
-on CMA, CMSA, ElitistCMA, VD-CMA, CrossEntropyMethod and SimplexDownhill (7 runs per case incl. a re-initialised used object)."""
+on CMA, CMSA, ElitistCMA, VD-CMA, CrossEntropyMethod and SimplexDownhill (8 runs per case incl. a re-initialised used object and an
+object used on another problem before), over the cross product of the configuration axes of every class' public interface (global / private
+generator, every init overload, setters before / after init / in the middle of a run)."""
 import os, re, struct, subprocess, time
 from concurrent.futures import ThreadPoolExecutor
 from vlib import core
@@ -27,23 +29,37 @@ MANIFEST = dict(
         "and the point changes only with it), active_update_admissible (the shortened unlearning rate keeps (1+r)-r|z|^2>0 for every z), ecma_factor_valid. "
         "(5) remora's Cholesky rank-one update (CMSA, ElitistCMA): cholUpdate_diag_pos / cholUpdate_valid (whenever the update returns, the factor has a positive diagonal again, for every alpha>0, any beta, any v), cmsa_factor_valid, cmsa_sigma_pos. "
         "(6) cem_variance_nonneg; SimplexDownhill: simplex_best_monotone(_run), simplex_value_is_f. "
+        "(7) Configuration axes, universally quantified: ecmaInit_invariant + ecma_elitist_monotone_run / _prefix (whole ElitistCMA runs from init, any number of steps, BOTH settings of activeUpdate(): the reported value never gets worse), "
+        "ecma_accepted_monotone (with penalties, i.e. a feasibility box: the accepted penalized fitness never increases), clamp_pos_any / sigma_pos_any_bound (sigma_pos for EVERY CMA::setLowerBound value, zero and negative included), "
+        "cemNoise_nonneg / cem_variance_nonneg_any_noise (every CrossEntropyMethod::setNoiseType configuration, every generation). "
         "Tie, on every run: all strategy constants of CMA/CMSA/VD-CMA/ElitistCMA/LM-CMA objects initialised through their public interface are compared bit for bit with the Float instance of the regenerated formulas; "
         "CMA::updatePopulation, ElitistCMA::step, CMSA::updatePopulation and CrossEntropyMethod's update are re-computed step by step by the models from the real run's own state and samples (one-step refinement; ECMA/CMSA/CEM bit-identical, CMA bit-identical or 1e-9 behind BLAS/eigensolver); "
         "whole SimplexDownhill runs are re-computed from the starting point (objective evaluated in Lean) and compared bit for bit. "
         "Independent oracle on the real CMA (all recombination types, user-set lambda from 2 to 200 incl. lambda >> n), CMSA, ElitistCMA, VD-CMA, CrossEntropyMethod (user-set population / selection / variance), SimplexDownhill, n from 1 to 60, after init and after every step: "
         "sigma>0 finite; covariance symmetric + own Cholesky (CMA) / valid Cholesky factor (CMSA, ElitistCMA) / D finite non-zero, v finite, |v|>0 (VD-CMA) / variance finite >=0 (CEM); mean and paths finite; weights positive, non-increasing, sum 1; learning rates in range; "
-        "value = f(closest feasible point) bit-exact; 7 runs per case with the same seed: fresh, fresh, RE-INITIALISED used object, and f rescaled by 2, 1/8 and a piecewise-linear exact map (identical points and step sizes); elitist variants monotone; best <= every simplex vertex; sphere convergence for all six methods."),
+        "value = f(closest feasible point) bit-exact; 8 runs per case with the same seed: fresh, fresh, RE-INITIALISED used object, an object first USED ON ANOTHER PROBLEM (other dimension, smaller or larger, other start and seed, per-run state overwritten through the after-init setters) and then initialised, "
+        "and f rescaled by 2, 1/8 and a piecewise-linear exact map (identical points and step sizes); elitist variants monotone (ElitistCMA: reported value without a box; penalized fitness of every newly accepted parent, read from the individual, with and without a box); best <= every simplex vertex; sphere convergence for all six methods "
+        "(generator kind, init overload, activeUpdate and recombination type drawn at random). "
+        "CONFIGURATION SWEEP (oracle on the real code, labelled as such; every run, both tiers): the cross product of the configuration axes of each class' public interface, each cell a run case with all oracles above (~460 cells in the quick tier, x4 in the thorough tier): "
+        "CMA {global | private generator} x {init(f,p) | init(f) with proposed start | init(f,points) | init(f,p,lambda,mu,sigma[,C0 none/diagonal/dense])} x {no setter | setLambda+setMu | setLambda only | setMu only} x 3 recombination types x {default | setLowerBound(positive, 0, negative)}; "
+        "CMSA the same generator / init / setter axes x setInitialSigma; ElitistCMA generator x 3 short inits x activeUpdate {untouched, false, true} x sigma() x {no box | feasibility box with default / custom constrainedPenaltyFactor()}; "
+        "VD-CMA generator x 4 inits x {default | setInitialSigma | setSigma after init} x lambda() changed after init; CrossEntropyMethod 4 inits x {default | setVariance(double) | variance vector} x {no | ConstantNoise | LinearNoise} x population/selection size changed after init; SimplexDownhill 3 inits; "
+        "setters called in the MIDDLE of a run (activeUpdate toggled, sigma(), setLowerBound, setSigma, lambda(), setVariance, population sizes). "
+        "Determinism with a private generator is tested with random::globalRng in a DIFFERENT state in each of the 8 runs (a draw from the wrong generator changes the run), with the global generator it is seeded identically. "
+        "The model traces cover the same axes where they change the update: activeUpdate on/off and a feasibility box (Ecma model), lower bound (carried in the trace header) and initial covariance (CMA model), initial covariance (CMSA), noise type / variance vector / resized population (CEM; cemNoise in Model/ES.lean), every init overload (simplex); "
+        "the strategy constants are compared with the regenerated formulas under every construction mode / init overload / setter combination."),
   note=TRUST + "not modelled (inputs of the models): the random variates and the eigendecomposition of MultiVariateNormalDistribution::update; VD-CMA's updateStrategyParameters has no Lean model (constants regenerated and compared, update covered by the oracle only; "
        "generic_rank_invariance applies to any update function but VD-CMA's is not tied); cov_update_psd is stated on Mathlib matrices, the list-based covUpdate of the executable model is the same formula but the two are not formally connected; "
        "cholUpdate_diag_pos proves validity of the returned factor, not that L'L'^T equals alpha*LL^T+beta*vv^T; simplex rank invariance and CEM/simplex convergence are oracle-only; the noise-handling branch of CMA::step (function.isNoisy()) is outside the property (deterministic objective); "
-       "ElitistSelection uses std::sort (unstable beyond 16 elements): generations with tied fitness among more than 16 offspring are counted, not compared; convergence on the sphere is numerical (value <= 1e-10 within the budget; CEM: 1e-6 and dimension <= 2 only, because the noise-free cross-entropy method with 10 of 100 parents converges prematurely in higher dimension: n=5, seed 862289 stalls at 3.6e-3). "
+       "ElitistSelection uses std::sort (unstable beyond 16 elements): generations with tied fitness among more than 16 offspring are counted, not compared; convergence on the sphere is numerical (value <= 1e-10 within the budget; CEM: 1e-6 and dimension 1 only, because the noise-free cross-entropy method with 10 of 100 parents converges prematurely in higher dimension: n=5, seed 862289 stalls at 3.6e-3; n=2, seed 680299 from (3, 2.5) stalls at 1.1e-2, about 1 run in 400). "
+       "That a run with a private generator does not depend on random::globalRng, and the equivalence of per-run state after init of a used object, have no model-level content (the models take the variates as inputs) and are decided by the oracle on the real code only. "
        "Known findings on the unchanged tree (known_findings.json, findings_proposed/C11.md): F14 VD-CMA learning rates negative for n<5 and zero for n=5 (patch C11-F14-vdcma-correction-floor.patch, validated) and its consequence F12 (VD-CMA turns NaN after stagnating), "
        "F13 the CMA covariance matrix drifts away from symmetry (oracle tolerance 1e-9*sqrt(CiiCjj)+1e-16), F15 CMA with a feasibility box whose optimum lies on the boundary and a large population loses positive definiteness of C and the eigensolver throws (thorough tier; corpus f15). CMA traces do not start at |x0| ~ 1e6 (cancellation in x - mean exceeds the 1e-9 tolerance of the C comparison; such starts are kept in the run cases). Observations (not violations of C11 as stated): CMA/CMSA rank offspring by unpenalizedFitness, so the PenalizingEvaluator penalty never influences selection; LMCMA.h does not compile and LMCMA::step always throws; CMAChromosome::roundUpdate deviates from the paper by a factor c_cov.",
   technique="Lean 4 proofs (induction over generations and over the columns of the Cholesky factor, stable-sort congruence, Mathlib PosSemidef) about regenerated formulas and hand-written models + differential correspondence and property oracle on the C++ (ASan/UBSan)",
   design="§6 C11, §14")
 FINISH = dict(level="proof",
               rule="coefficient cases: (class, n, lambda, mu, recombination) incl. the defaults; run cases: objective (sphere | integer strictly convex quadratic | Rosenbrock | plateau | constant, optional soft box) x optimizer x population class x initial step size x x0 class x seed x steps, "
-                   "each executed 7 times inside the harness (2x fresh, re-initialised used object, 3 rescalings); trace cases: CMA / ElitistCMA / CMSA / CEM steps re-computed by the models, whole simplex runs; non-trivial = at least 5 steps")
+                   "each executed 8 times inside the harness (2x fresh, re-initialised used object, object used on another problem before, 3 rescalings); configuration cells: the cross product of the construction / init / setter axes of each class (gen_axis_cases), one run case per cell; trace cases: CMA / ElitistCMA / CMSA / CEM steps re-computed by the models, whole simplex runs; non-trivial = at least 5 steps")
 
 
 def fb(x):
@@ -568,7 +584,7 @@ def classify(ops, res):
     return f"mismatch:{res.why}:{info['opt']}", f"model and implementation disagree ({res.why}) at line {res.diff_at} of ops {ops}"
 
 
-def correspond(ctx, name, cases, hcmd, dcmd, max_report=6):
+def correspond(ctx, name, cases, hcmd, dcmd, max_report=8):
     t = time.time()
     stats = {}
     all_ops = [l for c in cases for l in c]
@@ -613,7 +629,7 @@ def correspond(ctx, name, cases, hcmd, dcmd, max_report=6):
                   "model_output": [l[:600] for l in rs.model[-6:]], "first_diff_line": rs.diff_at, "why": rs.why,
                   "oracle": rs.oracle[:5], "crash": rs.crash, "stderr_tail": rs.stderr[-1500:]}
         ctx.violation(key, replay, found_input=found, what=classify(small, rs)[1])
-        if len(seen) >= max_report:
+        if len([k for k in seen if not re.match(r"F\d+:", k)]) >= max_report:     # known findings do not use up the report budget
             break
     return len(failing)
 
